@@ -7,6 +7,7 @@
   ones (`CmdArgs`, … : identity).  Strings are lists of code points.
   The Unicode name database behind `\N{…}` is a parameter (`UniDb`).
 -/
+import MitmVerif.Model.C44
 namespace MitmVerif.C45
 
 abbrev Str := List Nat
@@ -242,6 +243,95 @@ def executeSig (db : UniDb) (cmds : Str → Option Sig) (line : Str) : Exec :=
       | none => .arity
       | some tys =>
         match collect (List.zipWith (parseArg db) tys args) with
+        | some as => .call name as
+        | none => .badArg
+
+/-! ### the remaining argument conversions: int, bool, path (typed values) -/
+
+/-- every parameter type of `mitmproxy.types` whose `parse` is a pure function of the text -/
+inductive ArgTyT
+  | str | verbatim
+  | int        -- `_IntType.parse`  = `int(s)`
+  | bool       -- `_BoolType.parse` = "true" / "false", anything else ValueError
+  | path       -- `_PathType.parse` = `os.path.expanduser(s)`
+  deriving DecidableEq
+
+inductive TVal
+  | s (x : Str) | i (x : Int) | b (x : Bool)
+  deriving DecidableEq
+
+/-- what `os.path.expanduser` reads from the process: `$HOME` (or, when unset, the current user's pw_dir; `none` when
+    neither is available) and the password database (user name → home directory) -/
+structure Env where
+  home : Option Str
+  pwHome : Str → Option Str
+
+def rstripSlash (s : Str) : Str := (s.reverse.dropWhile (· == 47)).reverse
+
+/-- `posixpath.expanduser(path)`; `none` = ValueError (a user name with an embedded NUL) -/
+def expandUser (env : Env) (p : Str) : Option Str :=
+  match p with
+  | 126 :: r =>
+    let name := (spanNot 47 r).1
+    let rest := (spanNot 47 r).2
+    if name.isEmpty then
+      match env.home with
+      | none => some p
+      | some h => let x := rstripSlash h ++ rest; some (if x.isEmpty then [47] else x)
+    else if name.contains 0 then none
+    else
+      match env.pwHome name with
+      | none => some p
+      | some h => let x := rstripSlash h ++ rest; some (if x.isEmpty then [47] else x)
+  | _ => some p
+
+def strTrueC : Str := "true".toList.map Char.toNat
+def strFalseC : Str := "false".toList.map Char.toNat
+
+def parseArgT (db : UniDb) (env : Env) : ArgTyT → Str → Option TVal
+  | .str, s => (strParse db s).map TVal.s
+  | .verbatim, s => some (.s s)
+  | .int, s => (MitmVerif.C44.pyInt s).map TVal.i
+  | .bool, s => if s = strTrueC then some (.b true) else if s = strFalseC then some (.b false) else none
+  | .path, s => (expandUser env s).map TVal.s
+
+structure SigT where
+  params : List ArgTyT
+  varargs : Option ArgTyT
+
+def bindTysT (sig : SigT) (n : Nat) : Option (List ArgTyT) :=
+  if n < sig.params.length then none
+  else match sig.varargs with
+    | none => if n == sig.params.length then some sig.params else none
+    | some t => some (sig.params ++ List.replicate (n - sig.params.length) t)
+
+def tyAtT (sig : SigT) (i : Nat) : Option ArgTyT :=
+  match sig.params[i]? with
+  | some t => some t
+  | none => sig.varargs
+
+inductive ExecT
+  | arity | noCommand | unknown | badArg
+  | call (name : Str) (args : List TVal)
+  deriving DecidableEq
+
+def collectT : List (Option TVal) → Option (List TVal)
+  | [] => some []
+  | none :: _ => none
+  | some a :: r => (collectT r).map (a :: ·)
+
+/-- `CommandManager.execute(line)` with every convertible parameter type -/
+def executeT (db : UniDb) (env : Env) (cmds : Str → Option SigT) (line : Str) : ExecT :=
+  match (argTokens line).map unquote with
+  | [] => .noCommand
+  | name :: args =>
+    match cmds name with
+    | none => .unknown
+    | some sig =>
+      match bindTysT sig args.length with
+      | none => .arity
+      | some tys =>
+        match collectT (List.zipWith (parseArgT db env) tys args) with
         | some as => .call name as
         | none => .badArg
 
